@@ -1295,23 +1295,21 @@ impl ThreadInternal for Thread {
             return false;
         }
         // Otherwise the threads might be able to share values but only if they are on the same
-        // of the generation tree (see src/gc.rs)
-        // Search from the thread which MAY be a child to the parent. If `parent` could not be
-        // found then the threads must be in different branches of the tree
-        let self_gen = gc.generation();
-        let other_gen = other.context.lock().unwrap().gc.generation();
-        let (parent, mut child) = if self_gen.is_parent_of(other_gen) {
-            (self, other)
-        } else {
-            (other, self)
-        };
-        while let Some(ref next) = child.parent {
-            if &**next as *const Thread == parent as *const Thread {
-                return true;
+        // branch of the generation tree (see src/gc.rs), i.e. if one of them is an ancestor of the
+        // other. The (immutable) parent links are searched in both directions instead of comparing
+        // generations: reading `other`'s generation requires locking its context while our own
+        // is held, which deadlocks when two threads do this to each other at the same time.
+        fn is_ancestor(ancestor: &Thread, mut child: &Thread) -> bool {
+            while let Some(ref next) = child.parent {
+                if &**next as *const Thread == ancestor as *const Thread {
+                    return true;
+                }
+                child = next;
             }
-            child = next;
+            false
         }
-        false
+        let _ = gc;
+        is_ancestor(self, other) || is_ancestor(other, self)
     }
 }
 
